@@ -3,6 +3,7 @@ import Pyrtma.Proofs.ManagerOrder
 import Pyrtma.Spec.Manager
 import Pyrtma.Proofs.ManagerSimRun
 import Pyrtma.Proofs.ManagerSimOrigin
+import Pyrtma.Proofs.ManagerSimConn
 /-!
 # C14 — undeliverable messages are reported, not silently lost
 
@@ -10,8 +11,10 @@ Theorems about one iteration of `forward_message`'s recipient loop (`deliverOne`
 `forward_message`, `send_to_loggers` and `send_ack` (`trySend`) and about `send_failed_message` (`failedMsg`), for every
 state, frame, writable set, set of failing sockets and every nested forward `fwd`.
 
-Refinement link, partial (the counted lower bounds of `checkData` / `checkDepartures` are not linked):
-`spec_guard_clause_passes_on_model` (no notice about a notice, every history),
+Refinement link, partial (the counted lower bound of `checkDepartures` — an undeliverable CLIENT_CLOSED is owed a notice —
+is not linked): `spec_guard_clause_passes_on_model` (no notice about a notice, every history),
+`spec_data_clauses_pass_on_model` (`Spec.checkData`, its counted C14 clause included, returns its argument on the events
+of every data frame read in a simulated state; model-level core: `undeliverable_reported_counted`),
 `spec_notice_origin_clause_passes_on_model` (the clause `Spec.checkNoticeOrigin` — a notice is never invented — returns
 its argument on the events of every frame and of every stretch before the first read of a round, in a simulated state) and
 `logger_waited_clause_passes_partial` — the clause `Spec.checkLoggerWaited` ("a logger module is waited for instead of being
@@ -201,5 +204,50 @@ theorem spec_notice_origin_clause_passes_on_model (cfg : Cfg) (ok : CfgOK cfg) {
 example : ((Spec.checkNoticeOrigin {} {} none [.send 3 1 (failedFrame {} 11 exFrame)]).errs.map (·.1) = ["C14"]) ∧
     Spec.noticeJustified {} { mods := [{ uid := 1, modId := 11 }] } none (failedFrame {} 11 { exFrame with mtype := 32, src := 0, dest := 0 }) = true := by
   decide
+
+/-! ### The counted lower bound: who is owed a notice gets it, as often as the Spec demands -/
+
+/-- **Every undeliverable subscriber is reported to every FAILED_MESSAGE observer, counted** (model level, one
+`forward_message` call at top level with everything nested in it).  `g` is any frame outside the recursion guard with
+destination fields in range, forwarded in a crash-free state.  `o` can take a FAILED_MESSAGE at the end (`StableF`: in the
+table, socket open, connection not failing, subscribed to FAILED_MESSAGE or to everything, writable or a logger).  `U` is
+a duplicate-free list of connections with module id `d`, each of them either a subscriber of `g`'s type that is not
+writable, is no logger and is still in the table at the end (`Owed`), or a subscriber whose connection fails, that `g`
+would be written to and that hears none of the manager's own notices (`FailOwed`, at the start).  Then `o` has been
+written at least `U.length` frames `failed d g.mtype g.src g.dest`. -/
+theorem undeliverable_reported_counted (cfg : Cfg) (ok : CfgOK cfg) (hfuel : cfg.fuel = 0) (hperm : OrdPerm cfg)
+    (s : State) (h : Top cfg s) (g : Frame) (hg : inGuard cfg g.mtype = false) (hin : oor cfg g = false)
+    (ext : List Ev) (he : (fwdTop cfg s g).out = s.out ++ ext) (o : Nat) (d : Int) (U : List Nat)
+    (ho : StableF cfg (fwdTop cfg s g) o) (hU : U.Nodup)
+    (hOw : ∀ u ∈ U, Owed cfg g.mtype d (fwdTop cfg s g) u ∨ (FailOwed cfg g d s u ∧ u ∈ idxGet s.idx g.mtype)) :
+    U.length ≤ fcnt o (.failed d g.mtype g.src g.dest) ext := by
+  obtain ⟨e, oe, x⟩ := fwdTop_owed ok (OrdAll_of_perm hperm) (ordSub_of_perm hperm) hfuel h.good g hg hin
+  have : e = ext := List.append_cancel_left (oe.symm.trans he)
+  subst this
+  exact x o d U ho hU hOw
+
+/-- **`Spec.checkData` never fires on the model's own run** — its C01 clauses and the counted C14 clause ("every observer
+of FAILED_MESSAGE that can take it gets, about every subscriber the frame cannot be handed to, at least as many notices
+naming that subscriber's id and the frame's type, source and destination as there are such subscribers with that id").
+The model reads a data frame (header and payload complete, not a control type) from `rd.uid` in a state `s` that the
+abstract state `a` simulates (`Inv`: after every history and at every frame inside a round), handles it, possibly followed
+by the periodic section (`q`); `evs` are the events after the `rd` marker.  Then `Spec.checkData`, evaluated by
+`Spec.segment` on the abstract state after the payload read (`Spec.checkAcks` in between returns its argument: C19),
+returns that state. -/
+theorem spec_data_clauses_pass_on_model (cfg : Cfg) (ok : CfgOK cfg) (hfuel : cfg.fuel = 0) (hperm : OrdPerm cfg)
+    {a : Spec.A} {s : State} (inv : Inv cfg a s) (rd : Read) (hu0 : rd.uid ≠ 0) (m : Module) (hm : s.find rd.uid = some m)
+    (s2 : State) (q : QuietTo cfg (readOne cfg s rd) s2) (evs : List Ev) (he : s2.out = s.out ++ Ev.rd rd.uid :: evs)
+    (hb : Spec.brokenRd cfg rd = false) (hctl : Spec.isControl cfg rd.h.mtype = false) :
+    Spec.checkData cfg (Spec.afterBuf cfg a rd) rd.h evs = Spec.afterBuf cfg a rd :=
+  dataClauses_ok ok hfuel hperm inv rd hu0 m hm s2 q evs he hb hctl
+
+/-- non-vacuity: the counted clause is not trivially silent — module 1 (id 11) subscribes to type 5000 and is not
+    writable, module 2 watches FAILED_MESSAGE and is writable; with no notice among the events the clause fires, with
+    the notice it does not -/
+def exA : Spec.A := { mods := [{ uid := 1, modId := 11, connected := true, types := [5000] },
+                               { uid := 2, modId := 12, connected := true, types := [8] }], nAccepted := 2, w := [2] }
+def exH : Hdr := { mtype := 5000, src := 10, dest := 0, destHost := 0, nbytes := 4, k := 7 }
+example : (Spec.checkData {} exA exH []).errs.map (·.1) = ["C14"] ∧
+    (Spec.checkData {} exA exH [.send 2 1 (failedFrame {} 11 exFrame)]).errs = [] := by decide
 
 end Pyrtma.C14
